@@ -14,6 +14,7 @@ import (
 
 	agglayertypes "github.com/agglayer/aggkit/agglayer/types"
 	"verif/h/mc"
+	"verif/h/ref"
 )
 
 // Opts selects the alphabet and the oracle clauses of a property.
@@ -24,6 +25,13 @@ type Opts struct {
 	MaxCrashEvents int
 	// RowsMatchAgglayer enables C02's clause (e): exactly one local row per height the Agglayer received.
 	RowsMatchAgglayer bool
+	// Verbose evaluates the invariants and logs the state after EVERY event of the history (replay);
+	// otherwise that is done for the last event only: every proper prefix of an explored history is
+	// itself an explored history whose last event was checked.
+	Verbose bool
+	// NoAdvance drops the single-step verdict event (the Agglayer-side situations are then nothing,
+	// pending, in error, settled).
+	NoAdvance bool
 }
 
 // Exec is one execution: a history of events applied to fresh real objects.
@@ -47,6 +55,7 @@ type Exec struct {
 	live        bool // the event being applied is the last one of the history (the new transition)
 	stop        bool // a violation was found: the state is not expanded
 	probe       func() // bounded-progress probe to run after key and enabled events are fixed
+	tmpl        []byte // an empty certificate DB as the real constructor creates it
 }
 
 var execSeq atomic.Int64
@@ -64,6 +73,7 @@ func Run(c *mc.Ctx, cfg Cfg, opt Opts, w *World, history []string) (key string, 
 	}
 	defer os.RemoveAll(dir)
 	x := &Exec{C: c, Cfg: cfg, Opt: opt, W: w, set: set, dir: dir, dbPath: filepath.Join(dir, "aggsender.sqlite")}
+	x.tmpl = w.EmptyCertDB(cfg.Faults)
 	x.Ag = NewAgglayer(w.Hist)
 	x.k = &knobs{ag: x.Ag}
 	x.Ag.Trace = func(f string, a ...any) { c.Obs(f, a...) }
@@ -81,7 +91,9 @@ func (x *Exec) run(history []string) (string, []string) {
 		}
 	}()
 	x.startNode()
-	x.check()
+	if len(history) == 0 || x.Opt.Verbose {
+		x.check()
+	}
 	for i, ev := range history {
 		if x.stop {
 			break
@@ -89,10 +101,16 @@ func (x *Exec) run(history []string) (string, []string) {
 		x.live = i == len(history)-1
 		time.Sleep(100 * time.Second) // every event happens at its own (fake) time
 		x.apply(ev)
-		x.check()
-		x.C.Obs("%-40s => %s", ev, x.oneLine())
+		if x.live || x.Opt.Verbose {
+			x.check()
+			x.C.Obs("%-40s => %s", ev, x.oneLine())
+		} else {
+			x.flushJudgements("")
+			x.C.Obs("%s", ev)
+		}
 	}
 	key := x.key()
+	x.C.Obs("state %x", ref.Keccak([]byte(key)))
 	if x.stop {
 		return key, nil
 	}
@@ -122,6 +140,12 @@ func (x *Exec) fail(key, format string, args ...any) {
 // node life cycle
 
 func (x *Exec) startNode() {
+	if _, err := os.Stat(x.dbPath); os.IsNotExist(err) {
+		// no certificate DB: the node starts on an empty one
+		if err := os.WriteFile(x.dbPath, x.tmpl, 0o644); err != nil {
+			panic(err)
+		}
+	}
 	n, err := x.buildNode()
 	if err != nil {
 		panic(fmt.Sprintf("senderkit: building the node: %v", err))
@@ -424,7 +448,7 @@ func (x *Exec) enabled() []string {
 	ev = append(ev, "EpochTick", "StatusTick")
 	open := x.Ag.OpenEntries()
 	if len(open) > 0 {
-		if s := open[0].Status; s == agglayertypes.Pending || s == agglayertypes.Proven {
+		if s := open[0].Status; !x.Opt.NoAdvance && (s == agglayertypes.Pending || s == agglayertypes.Proven) {
 			ev = append(ev, "Advance")
 		}
 		ev = append(ev, "Settle", "InError")
@@ -437,18 +461,27 @@ func (x *Exec) enabled() []string {
 	}
 	if x.Opt.Crashes && x.budgetUsed < x.Opt.MaxCrashEvents {
 		ev = append(ev, "Restart", "LoseDB")
-		if len(open) == 0 && !x.initPending {
-			// an iteration may submit only when nothing is undecided (a submission in any other state is
-			// already a violation found by the plain tick), so crash points and faults are placed there
+		// An iteration can submit only when nothing is undecided and something is unsent (a submission
+		// in any other state is already a violation found by the plain tick), so the crash points and
+		// storage faults of the send path are placed on those iterations only; a stop anywhere else is
+		// the Restart event. A save has one write statement, or three when it replaces a row.
+		last := x.Ag.Last()
+		replacing := last != nil && last.Status == agglayertypes.InError
+		unsent := replacing || (last == nil && x.N > 0) || (last != nil && uint64(x.N) > last.To)
+		if len(open) == 0 && !x.initPending && unsent {
 			kinds := []string{"EpochTick"}
-			if l := x.Ag.Last(); x.Cfg.Retry && l != nil && l.Status == agglayertypes.InError {
+			if x.Cfg.Retry && replacing {
 				kinds = append(kinds, "StatusTick")
+			}
+			nf := 1
+			if replacing {
+				nf = 3
 			}
 			for _, k := range kinds {
 				for _, p := range CrashPoints {
 					ev = append(ev, k+"/crash@"+p)
 				}
-				for f := 1; f <= 3; f++ {
+				for f := 1; f <= nf; f++ {
 					ev = append(ev, fmt.Sprintf("%s/fault@%d", k, f))
 				}
 			}
